@@ -214,6 +214,47 @@ def examine(ctx, jobs):
         ctx.sample({'circuit': case, 'waveforms': wf}, cap=3)
 
 
+def typed_grid_cases(ctx):
+    """the time grid is data: an integer-typed grid (np.arange(n)) or a float32 grid must give the response of the same instants given as
+    binary64 — inputs are sampled on the grid and must not inherit its dtype"""
+    from CircuitCalculator.Circuit.solution import TransientSolution
+    for name, case, src in (
+            ('RC', {'components': [{'kind': 'dc_voltage_source', 'id': 'Vs', 'nodes': ['1', '0'], 'params': {'V': 1.0, 'R': 0.0}},
+                                   {'kind': 'resistor', 'id': 'R1', 'nodes': ['1', '2'], 'params': {'R': 10.0}},
+                                   {'kind': 'capacitor', 'id': 'C1', 'nodes': ['2', '0'], 'params': {'C': 1.0}},
+                                   {'kind': 'ground', 'id': 'gnd', 'nodes': ['0'], 'params': {}}]}, 'Vs'),
+            ('RL', {'components': [{'kind': 'dc_current_source', 'id': 'Is', 'nodes': ['0', '1'], 'params': {'I': 1.0, 'G': 0.0}},
+                                   {'kind': 'resistor', 'id': 'R1', 'nodes': ['1', '0'], 'params': {'R': 2.0}},
+                                   {'kind': 'inductance', 'id': 'L1', 'nodes': ['1', '2'], 'params': {'L': 8.0}},
+                                   {'kind': 'resistor', 'id': 'R2', 'nodes': ['2', '0'], 'params': {'R': 2.0}},
+                                   {'kind': 'ground', 'id': 'gnd', 'nodes': ['0'], 'params': {}}]}, 'Is')):
+        circuit, _ = __import__('circrun').build_impl(case)
+        ids = [c['id'] for c in case['components'] if c['kind'] != 'ground']
+
+        def wave(t):
+            return 0.75 * np.minimum(np.asarray(t, dtype=float) / 5.0, 1.0)
+        ref_t = np.arange(0, 160, dtype=float)
+        for tag, grid in (('int64', np.arange(0, 160)), ('int32', np.arange(0, 160, dtype=np.int32)), ('float32', np.arange(0, 160, dtype=np.float32))):
+            ctx.evaluations += 1
+            ctx.count('typed-grid:' + tag)
+            rep = {'circuit': case, 'grid_dtype': tag, 'waveform': '0.75*min(t/5, 1)'}
+            try:
+                a = TransientSolution(circuit, tin=ref_t, input={src: wave})
+                b = TransientSolution(circuit, tin=grid, input={src: wave})
+                for i in ids:
+                    va, vb = np.asarray(a.get_voltage(i)[1], dtype=float), np.asarray(b.get_voltage(i)[1], dtype=float)
+                    ia, ib = np.asarray(a.get_current(i)[1], dtype=float), np.asarray(b.get_current(i)[1], dtype=float)
+                    tol = 1e-5 if tag == 'float32' else 1e-9
+                    if va.shape != vb.shape or np.max(np.abs(va - vb)) > tol * max(np.max(np.abs(va)), 1e-6) or \
+                            np.max(np.abs(ia - ib)) > tol * max(np.max(np.abs(ia)), 1e-6):
+                        ctx.violation('C12:response-depends-on-the-dtype-of-the-time-grid', f'{name} circuit, element {i!r}: the response on the {tag} grid '
+                                      f'0..159 differs from the response at the same instants given as binary64 (final voltage {vb[-1]} vs {va[-1]}): the '
+                                      f'input samples inherit the grid dtype', rep)
+                        break
+            except Exception as e:  # noqa: BLE001
+                ctx.violation(f'C12:raises-{type(e).__name__}', f'{tag} time grid: {str(e)[:120]}', rep)
+
+
 def run(ctx):
     ctx.trusted = TRUSTED
     ctx.partial = ['accuracy of scipy.signal.lsim itself is runtime behaviour outside the model (compared against an independent '
@@ -222,6 +263,7 @@ def run(ctx):
         rng = random.Random(ctx.seed + 12)
         cases = c10.gen(ctx, 40, 1200, 12, min_states=1)
         examine(ctx, [(o, c, gen_wf(rng, c)) for o, c in cases])
+        typed_grid_cases(ctx)
     return RULE
 
 
